@@ -4,6 +4,7 @@ import os
 D = os.path.join(os.path.dirname(os.path.dirname(os.path.abspath(__file__))), 'corpus')
 os.makedirs(D, exist_ok=True)
 P = {}
+LARGE = {}      # programs with a very large state: only used by C06's sparse mode (corpus_large/)
 # ---- G_op: one operator / intrinsic per program, operands are dsp inputs -------------------------------
 for name, op in [('add', '+'), ('sub', '-'), ('mul', '*'), ('div', '/'), ('mod', '%'), ('pow', '^'), ('eq', '=='), ('ne', '!='),
                  ('lt', '<'), ('le', '<='), ('gt', '>'), ('ge', '>='), ('and', '&&'), ('or', '||')]:
@@ -97,6 +98,8 @@ P['ct_tuplearr'] = 'fn dsp(a:float)->float{\n  let t = ([1.0, 2.0, 3.0], 5.0)\n 
 P['ct_blocklet'] = 'fn dsp(a:float)->float{\n  let x = 1.0\n  let y = {\n    let x = a * 2.0\n    x + 1.0\n  }\n  x + y * 10.0\n}\n'
 P['ct_arrempty'] = 'fn dsp(a:float)->float{\n  let t = []\n  t[a] + 1.0\n}\n'
 P['ct_arremptyarg'] = 'fn pick(t:[float], i:float){\n  t[i] * 2.0\n}\nfn dsp(a:float)->float{\n  pick([], a) + pick([a, 1.0], a)\n}\n'
+# a state larger than 2^16 words (long delay line followed by another cell): size arithmetic in narrow integer types
+LARGE['st_delaylong'] = 'fn cnt(x:float){\n  self + x\n}\nfn dsp(a:float)->float{\n  let c = cnt(1.0)\n  let d = delay(70000.0, c + a, 100.0)\n  d + mem(c)\n}\n'
 # ---- G_cls --------------------------------------------------------------------------------------------------
 P['cl_hof'] = 'fn apply(f:(float)->float, x:float){\n  f(x)\n}\nfn dsp(a:float)->float{\n  apply(|x| x * 3.0, a)\n}\n'
 P['cl_capture'] = 'fn dsp(a:(float,float))->float{\n  let k = a.0\n  let f = |x| x * k + 1.0\n  f(a.1)\n}\n'
@@ -109,7 +112,18 @@ P['cl_valfn'] = 'let acc = 0.0\nfn bump(k:float){\n  acc = (|y| {y * k + acc})(1
 P['cl_unitfn'] = 'let acc = 0.0\nfn bump(k:float){\n  acc = (|y| {y * k + acc})(1.0)\n}\nfn dsp(a:float)->float{\n  bump(a)\n  acc\n}\n'
 P['cl_unitlet'] = 'let acc = 0.0\nfn bump(k:float){\n  let f = |y| {y * k}\n  acc = f(acc + 1.0)\n}\nfn dsp(a:float)->float{\n  bump(a)\n  acc\n}\n'
 P['cl_unithof'] = 'let acc = 0.0\nfn apply(f:(float)->float, x:float){\n  f(x)\n}\nfn bump(k:float){\n  acc = apply(|y| {y + k}, acc)\n}\nfn dsp(a:float)->float{\n  bump(a)\n  acc\n}\n'
+# boxed recursive variants built, tested with a wildcard match and dropped inside dsp (the shape that is steady on the VM);
+# payload layouts: scalar / pair / record before the recursive field, two recursive fields, nested variant by value
+P['cl_boxscalar'] = 'type rec List = Nil | Cons(float, List)\nfn dsp(a:float)->float{\n  let l = Cons(a, Nil);\n  match l { Nil => 0.0, _ => 1.0 }\n}\n'
+P['cl_boxpair'] = 'type rec PList = PNil | PCons((float, float), PList)\nfn dsp(a:float)->float{\n  let l = PCons((a, 1.0), PNil);\n  match l { PNil => 0.0, _ => 1.0 }\n}\n'
+P['cl_boxtree'] = 'type rec PTree = Leaf | Node((float, float), PTree, PTree)\nfn dsp(a:float)->float{\n  let t = Node((a, 2.0), Leaf, Leaf);\n  match t { Leaf => 0.0, _ => 1.0 }\n}\n'
+P['cl_boxtwo'] = 'type rec T = L | N(float, T, T)\nfn dsp(a:float)->float{\n  let t = N(a, N(1.0, L, L), L);\n  match t { L => 0.0, _ => 1.0 }\n}\n'
+P['cl_boxtriple'] = 'type rec Q = E | C((float, float, float), float, Q)\nfn dsp(a:float)->float{\n  let q = C((a, 1.0, 2.0), 3.0, C((0.0, 0.0, 0.0), a, E));\n  match q { E => 0.0, _ => 1.0 }\n}\n'
 for k, v in P.items():
     with open(os.path.join(D, k + '.mmm'), 'w') as f:
+        f.write(v)
+os.makedirs(D + '_large', exist_ok=True)
+for k, v in LARGE.items():
+    with open(os.path.join(D + '_large', k + '.mmm'), 'w') as f:
         f.write(v)
 print(len(P), 'programs')
